@@ -20,6 +20,7 @@ void *br_init_enumeration(void);
 void *br_init_session(void);
 void  br_automata_destroy(void *a);             /* frees extra (if any) and the object through the port */
 int   br_switch_mapping(void *a, int input);    /* returns current_state afterwards */
+void  br_set_log_tag_null(int on);              /* the switch functions get NULL instead of a text as their log tag */
 int   br_switch_enumeration(void *a, int input);
 int   br_switch_session(void *a, int input);
 int   br_aut_state(void *a);
